@@ -1,7 +1,7 @@
 import JediModel.Proto
 import JediModel.Model.Nesting
 import JediModel.Gen.C18
-import JediModel.Props.C18
+import JediModel.Lemmas.Nesting
 open Lean Proto JediModel.Nesting
 open JediModel.Scopes (Kind)
 
@@ -65,7 +65,7 @@ def handle (j : Json) : Json :=
          | _ => false)))),
       ("defs", jarr (defs.map jnat)),
       ("chain", jarr (defs.map fun i => jarr ((parentChain p i).map jnat))),
-      ("chainhyp", jarr (defs.map fun i => jbool (JediModel.Props.C18.ChainHyp p i))),
+      ("chainhyp", jarr (defs.map fun i => jbool (ChainHyp p i))),
       ("full", jarr (defs.map fun i => jnames (fullNameOfLeaf mp p i))),
       ("scopefull", jarr ((List.range p.scopes.length).map fun s => jnames (fullNameOfScope mp p s))),
       ("qualname", jarr ((List.range p.scopes.length).map fun s => jstr (".".intercalate (qualnameOf p s)))),
